@@ -1786,13 +1786,49 @@ def c09_mapswap_execs(r, quick):
     return execs
 
 
+def c09_flagdrop_execs(r, quick):
+    """deterministic family: a workspace (built-in and external) is used with some quantity flagged, then the flag is dropped (or another one
+    raised) without re-initialisation, and the same workspaces are used again: what is no longer optimised is pinned to the reference
+    again, whatever the workspace held"""
+    execs = []
+    k = 0
+    for order in gen.ORDERS:
+        for (tm, sm) in FAMILIES:
+            for bit in range(8):
+                k += 1
+                if quick and (k + order) % 2:
+                    continue
+                D, N = 1 + k % 3, 1 + (k // 3) % 3
+                fa = [bool((k >> q) & 1) for q in range(8)]
+                fa[bit] = True
+                fb = list(fa)
+                fb[bit] = False
+                fb[(bit + 3) % 8] = not fb[(bit + 3) % 8]
+                p = gen.OptProblem(r, order, D, N, tm, sm, flags=fa, K=2, rho=0.5)
+                cmds = [{"op": "reset"}] + p.cmds_setup(1)
+
+                def evals(flags):
+                    n, _, _ = gen.opt_layout(order, D, N, flags, sm)
+                    x = [r.dyadic(-0.5, 0.5, 8) for _ in range(N)] + [(17 + q) / 8.0 for q in range(n - N)]
+                    cp = gen.cost_params(r)
+                    return [{"op": "evaluate", "obj": 1, "x": gen.hv(x), "ws": w, "costs": cp, "overload": 3} for w in (0, 7)] + \
+                           [{"op": "get_optimal", "obj": 1}]
+                cmds += evals(fa)
+                cmds.append({"op": "set_flags", "obj": 1, "flags": fb})
+                cmds += [{"op": "get_dim", "obj": 1}, {"op": "init_guess", "obj": 1}] + evals(fb)
+                cmds.append({"op": "set_flags", "obj": 1, "flags": fa})
+                cmds += evals(fa)
+                execs.append((len(cmds) * D * (order + 1), cmds))
+    return execs
+
+
 def plan_C09(ctx):
     selftest_rat(ctx)
     mc_optmath(ctx)
     mc_optobj(ctx)
     r = gen.Rng(ctx.seed * 1000003 + 9)
     execs = c09_config_execs(r, ctx.quick())
-    mexecs = c09_mapswap_execs(r, ctx.quick())
+    mexecs = c09_mapswap_execs(r, ctx.quick()) + c09_flagdrop_execs(r, ctx.quick())
     # reconfiguration histories: two optimizers up to 4 calls, and ONE optimizer up to 6 calls (setter / query / setter / query ...)
     hexecs = opt_history_execs(ctx, r, 200 if ctx.quick() else 5000, FAMILIES) + \
         opt_history_execs(ctx, r, 1200 if ctx.quick() else 20000, FAMILIES, maxops=5, ids="{1}") + \
@@ -1809,7 +1845,7 @@ def plan_C09(ctx):
                       "getDimension, initial guess (decodes to the reference; exact parts bit-identical), evaluation of a marker vector (decoded "
                       "durations / waypoints / boundary blocks, pinned quantities bit-identical to the reference, getOptimalSpline is that spline); "
                       "plus one script per transition of the reconfiguration model, plus re-binding between user spatial maps that differ in the dof of one "
-                      "point (first / inner / last) after the layout has been read", {"C09"})
+                      "point (first / inner / last) after the layout has been read, plus flags dropped and raised between evaluations on the same workspaces", {"C09"})
 
 
 def c15_ownership_execs(r):
